@@ -14,7 +14,9 @@ Init == l = 1 /\ cur = [kind |-> "none"] /\ TLCSet(1, 0)
 Next == l <= Len(Trace) /\ l' = l + 1 /\ cur' = Trace[l] /\ TLCSet(1, l)
 Spec == Init /\ [][Next]_vars
 TraceAccepted == TLCGet(1) = Len(Trace)
-Img == cur.kind = "image"
+\* images taken while the database is still being created / the genesis state is being written are outside the property:
+\* no block has been committed yet (the node re-creates the database from the genesis file)
+Img == cur.kind = "image" /\ cur.phase # "before-genesis"
 Opens == Img => cur.opens
 AtCommittedVersion == (Img /\ cur.opens) => (cur.wasCommitted /\ cur.version <= cur.committed + 1 /\ cur.version >= 1)
 NoLostCommit == (Img /\ cur.opens /\ cur.pct = 100) => TRUE
